@@ -124,6 +124,9 @@ class ExportRun:
                 pool.apply_async(_batch, (list(batch),), callback=done, error_callback=fail)
                 del batch[:]
 
+        budget = core.Budget()
+        self.budget = budget
+
         def cb(tx):
             if not (isinstance(tx, tuple) and tx and tx[0] in self.tags):
                 return
@@ -139,6 +142,10 @@ class ExportRun:
                 return
             if self.max_tx and self.stats["exported"] - self.stats["skipped"] > self.max_tx:
                 self.stats["skipped"] += 1
+                return
+            if budget.skip():
+                self.stats["skipped"] += 1
+                self.stats["skipped_by_budget"] = self.stats.get("skipped_by_budget", 0) + 1
                 return
             if len(self.samples) < 3 and self.per_action[key] in (1, 7):
                 self.samples.append(tx if "hist" not in tx else {"hist": tx["hist"], "act": tx["act"]})
@@ -167,6 +174,7 @@ class ExportRun:
         r = self.res
         return {"module": self.module, "config": self.cfg, "states": r.distinct, "generated": r.generated,
                 "depth": r.depth, "exported": self.stats["exported"], "replayed": self.stats["replayed"],
+                "skipped_by_time_budget": self.stats.get("skipped_by_budget", 0),
                 "stride": self.stride, "tlc_wall_s": round(r.wall, 1)}
 
 
@@ -212,7 +220,8 @@ def assemble(prop, verdict, runs, rule, assumptions, tlc_props, need=(), owns=No
     coverage = {"states": states, "transitions": exported,
                 "traces_validated_against_impl": replayed - truncated,
                 "samples": samples or [{"note": "none recorded"}],
-                "exhaustive": all(r.stride == 1 and not r.simulate and not r.max_tx and r.accept is None for r in runs),
+                "exhaustive": all(r.stride == 1 and not r.simulate and not r.max_tx and r.accept is None
+                                  and not r.stats.get("skipped_by_budget") for r in runs),
                 "evaluations": replayed, "distinct_nontrivial": replayed - truncated, "rule": rule,
                 "counters": counters, "foreign_facet_mismatches": foreign,
                 "per_action": dict(sorted(per_action.items())), "models": models,
